@@ -445,7 +445,7 @@ theorem sim_labelM (W : World) (M : Msl.MWorld) (env : Ast.Env) (hp : M.P = W.P)
       fun σ => by simp [Msl.eval, Msl.litTy, Msl.litVal, this, Msl.convR, Msl.convert, Ir.constVal, castVal]⟩
   | int32 v =>
     simp at hc; subst hc
-    have hs := sim_litM W M env { sig := W.sig, vty := fun _ => Ty.int, vis := fun _ => true, req := fun _ => none, rsv := fun _ => [] }
+    have hs := sim_litM W M env { sig := W.sig, vty := fun _ => Ty.int, vis := fun _ => true, req := fun _ => none, rsv := fun _ => [], called := fun _ => false }
       (.int32 v) a (by simp [Ir.okM]) hg
     have ht : Ir.typeOf W.sig (fun _ => Ty.int) (.lit (.int32 v)) = some .int := by simp [Ir.typeOf, Const.ty]
     refine ⟨_, hs.1, fun σ => ?_⟩
